@@ -167,7 +167,15 @@ def c13(tier, seed):
         ("G2", {"n": _sizes(tier, 350, 6000), "stack": True}),
         ("G3", {}),
     ], ["C13"])
-    r.rule = RULE_PARSE + " Judge on every rejected input: furthest_pos in range, listed names are rules, str() renders, line:col and source line are those of the position."
+    import c14
+    r2 = c14.check("C13", tier, seed)
+    r.evaluations += r2.evaluations
+    r.distinct_nontrivial += r2.distinct_nontrivial
+    r.violations += r2.violations
+    r.tie_breaks += r2.tie_breaks
+    r.rule = RULE_PARSE + (" Judge on every rejected input: furthest_pos in range, listed names are rules, str() "
+                           "renders, line:col and source line are those of the position. Plus error_context(text, i) "
+                           "for all small texts x all offsets vs the extracted model (LineCol.v).")
     return r
 
 
@@ -185,4 +193,9 @@ def c09(tier, seed):
     return m.check(tier, seed)
 
 
-CHECKS = {"C09": c09, "C01": c01, "C03": c03, "C04": c04, "C05": c05, "C06": c06, "C07": c07, "C13": c13, "C16": c16}
+def c14(tier, seed):
+    import c14 as m
+    return m.check("C14", tier, seed)
+
+
+CHECKS = {"C09": c09, "C14": c14, "C01": c01, "C03": c03, "C04": c04, "C05": c05, "C06": c06, "C07": c07, "C13": c13, "C16": c16}
